@@ -225,6 +225,8 @@ def run(chk):
     chk.guard(variants.apply, chk, "C08-R6", [("irispie.fords.kalmans", "kalman_filter")])
     from .. import gens
     chk.guard(gens.apply, chk, "C08-R7", {"fords"}, 3, "per-period or per-variant work fed from an exhausted iterator is silently skipped")
+    from .. import unused as _unused
+    chk.guard(_unused.apply, chk, "C08-R91")
     from .. import args as _args
     chk.guard(_args.apply, chk, "C08-R90", {'fords', 'simultaneous'}, 1)
     chk.assumptions = [
